@@ -100,6 +100,76 @@ def ring1_systematic(ctx, b):
         os.unlink(out)
 
 
+def ring1_model_replay(ctx, b):
+    """TLC -> implementation at lock granularity: behaviours of ThreadPool.tla (ThreadPoolH = the same model with a history of
+    mutex acquisitions) are replayed on the real threadpool.c - the scheduler admits a lock / re-acquire only in the model's
+    order. A behaviour the real code cannot follow, or a different delivery order, is recorded as model_drift (not a verdict);
+    the abstract events of every replayed behaviour are judged by PoolAbs as usual."""
+    import re
+    prog = build.compile_prog("sched", "pool_drv", ["pool_drv.c", "vs_sched.c"], extra_flags=["-I", os.path.join(build.REPO, "mtbl")])
+    wd = ctx.sub("replay")
+    cap = 1500 if ctx.quick() else 20000
+    for (MT, J, ordered) in [(2, 3, False), (2, 3, True)] + ([] if ctx.quick() else [(3, 3, False), (1, 3, True)]):
+        cfgp = os.path.join(wd, "H.cfg")
+        open(cfgp, "w").write("SPECIFICATION Spec\nCONSTANTS MaxThreads = %d NC = 1 Jobs = %d Ordered = %s MaxSpurious = 0 defaultInitValue = defaultInitValue\nINVARIANT DumpHist\nCHECK_DEADLOCK FALSE\n" % (MT, J, "TRUE" if ordered else "FALSE"))
+        r = core.tlc("ThreadPoolH", cfgp, workers=2, simulate="num=%d" % (40 if ctx.quick() else 400), extra=["-depth", "500", "-seed", str(ctx.seed)], timeout=1200)
+        if r.inv_violated or r.error:
+            raise core.Infra("ThreadPoolH simulation failed:\n" + r.out[-2000:])
+        seen, beh = set(), []
+        for m in re.finditer(r'<<\s*"HIST",(.*?)>>\s*>>\s*\n(?=\S|$)', r.out, re.S):
+            txt = re.sub(r"\s+", "", m.group(1))
+            if txt in seen:
+                continue
+            seen.add(txt)
+            acq = re.findall(r'<<(\d+),<<"(\w+)",(\d+)>>>>', txt)
+            tail = txt[txt.rfind(">>>>") + 4:]
+            deliv = [int(x) for x in re.findall(r"\d+", tail)]
+            beh.append((acq, deliv))
+            if len(beh) >= cap:
+                break
+
+        def tid(p):
+            p = int(p)
+            return 0 if p == MT + 1 else 1 if p == MT + 2 else 1 + p
+
+        def mid(k, i):
+            return 0 if k == "pool" else 1 if k == "rq" else 1 + int(i)
+        bf = os.path.join(wd, "lo.txt")
+        with open(bf, "w") as f:
+            for acq, _ in beh:
+                f.write("%d %d %d %d %s\n" % (MT, J, 1 if ordered else 0, len(acq), " ".join("%d %d" % (tid(p), mid(k, i)) for p, k, i in acq)))
+        out = os.path.join(wd, "lo.ndjson")
+        p = subprocess.run([prog, out, "lockorder", bf], stdout=subprocess.PIPE, stderr=subprocess.PIPE, text=True, timeout=1200)
+        recs = [json.loads(x) for x in open(out)]
+        execs = core.split_execs(recs)
+        drift = 0
+        for ex, (acq, deliv) in zip(execs, beh):
+            lo = [e for e in ex if e["e"] == "LockOrder"]
+            real = [e["j"] for e in ex if e["e"] == "Deliver"]
+            if not lo or lo[0]["left"] != 0 or (deliv and real != deliv):
+                drift += 1
+        if p.returncode == 4:
+            drift += 1
+        ctx.add("model_behaviours_replayed", len(execs))
+        ctx.add("model_drift", drift)
+        ctx.add("schedules", len(execs))
+        if p.returncode not in (0, 4):
+            core.report(ctx, "thread pool under a model behaviour's lock order (pool %d, jobs %d, ordered %s) ended with status %s: %s" % (MT, J, ordered, p.returncode, p.stderr[-300:]),
+                        {"kind": "abnormal", "why": "status %s" % p.returncode, "stderr": p.stderr[-1500:]})
+        ok, depth, rr = core.validate_trace(out, "Trace_Pool", timeout=1800)
+        if not ok:
+            acc, last = 0, []
+            for e in execs:
+                if acc + len(e) >= depth:
+                    last = e
+                    break
+                acc += len(e)
+            core.report(ctx, "thread pool under a model behaviour's lock order: events not explained by PoolAbs at line %s" % depth, {"kind": "trace", "module": "Trace_Pool", "trace": last, "line": len(last)})
+        else:
+            ctx.add("traces_validated_against_impl", len(execs))
+    ctx.cov.setdefault("model_drift", 0)
+
+
 def ring2(ctx, b):
     """pooled writers under the scheduler: file identical to the pool-less file"""
     rng = ctx.rng
@@ -222,6 +292,7 @@ def run(ctx):
     tlc_models(ctx)
     ring1(ctx, b)
     ring1_systematic(ctx, b)
+    ring1_model_replay(ctx, b)
     ring2(ctx, b)
     ring3(ctx, b)
     real_threads(ctx)
